@@ -140,6 +140,23 @@ theorem fine_escape_report_is_lone_esc (fls : List FLabel) (f : FSys) (out : Lis
     case gone => cases hs
     all_goals (simp only [Option.some.injEq, Prod.mk.injEq] at hs; exact absurd hs.2.symm ho)
 
+/-- **Conversely, the atomic system has no behaviour of its own**: every run of the atomic system
+    (any schedule of reads, end of input, `Close()`, timer firings, late callbacks — the schedules of
+    Props/C08.lean and of the F29 witnesses' repaired halves) is produced, item for item, by a schedule of
+    single statements that ends in a quiescent state (mutex free, main goroutine at the `select`, in the
+    read or finished, every callback not yet locked or returned) standing for the same atomic state.
+    With `fine_refines_atomic`: the two systems have the same outputs at quiescent points. -/
+theorem atomic_refines_fine (T : Table) (hT : TimerOk T) (ls : List Label) (a : Sys) (oa : List Seq)
+    (h : Sys.run T Cfg.fixed Sys.init ls = some (a, oa)) :
+    ∃ fls f, FSys.run T FSys.init fls = some (f, oa) ∧ Quiet f ∧ a = abs T f f.armed.isSome ∧ pend T f = [] := by
+  rw [← absQ_init T] at h
+  obtain ⟨fls, f, h1, q, e⟩ := conv_run T hT ls FSys.init FInv_init quiet_init a oa h
+  exact ⟨fls, f, h1, q, e, pend_quiescent T f q.pc⟩
+
+example : (Sys.run handTable Cfg.fixed Sys.init
+    [.enterRead, .read 0x1B, .enterRead, .timerExpire, .read 0x5B, .enterRead, .read 0x41, .cbRun false]).map (·.2) =
+    some [.csi [] [] 0x41] := by decide
+
 /-- **The mutex is never held for ever**: in every reachable state in which the main goroutine is
     neither blocked in the read nor finished, its next statement is enabled, or — it is waiting in
     `Lock` — the callback that holds the mutex can take its next statement (and a callback's critical
